@@ -10,13 +10,13 @@ GO = "GOFLAGS=-mod=mod GOPROXY=off GOSUMDB=off GOTOOLCHAIN=local"
 T = {
  "C01": ("runtime monitoring: journaled child-worker executions of the real Layout over the full option grid; watchdog (time, heap, stack) + recovered-panic oracle",
          "every generated call returned: no panic, no process death, no confirmed hang, no runaway heap, on the executions listed in the evidence (all 270 algorithm cells, families F1-F11)",
-         "time never decides alone (timeouts are re-run with 5x budget); network simplex positioner limited to <= 14 nodes; greedy-random replayed through seed hook H1"),
+         "time never decides alone (timeouts at 20 s under load are re-run with 100 s); network simplex positioner limited to <= 14 nodes; greedy-random replayed through seed hook H1"),
  "C02": ("runtime monitoring: output-vs-input multiset oracle over executions", "node set, edge multiset with direction, sizes and unrouted self loops equal the input on every explored call (virtual output off and on)", "expected sizes derived from the options alone (per-node entry, else fixed, else zero)"),
  "C03": ("runtime monitoring: band/edge-direction oracle over executions", "band spacing, no flat edge, downward edges on acyclic inputs, upward iff ArrowHeadStart on every explored call", "bands are recognised by equal Y per component (union-find on the input); LayerSpacing > 0"),
  "C04": ("runtime monitoring: pairwise rectangle and same-band gap oracle over executions", "no overlapping node rectangles, same-band gaps >= NodeSpacing, finite non-negative coordinates for the four size-aware positioners", "exact comparison for dyadic inputs, 1e-9 relative otherwise; spacing clause judged for LayerSpacing > 0 only (bands recognised by Y)"),
  "C05": ("runtime monitoring: anchor/arrowhead oracle over executions", "first/last route point = bottom-centre/top-centre of the upper/lower endpoint computed from the returned rectangles, arrowhead end at ToID", "anchors compared exactly (dyadic) or with 1e-9 relative tolerance"),
  "C06": ("runtime monitoring: per-style route shape oracle over executions", "straight=2 points; polyline=span+1 points, monotone y, bends outside nodes, one helper node per bend; ortho=axis-parallel segments; splines=4k points with joined pieces", "spans derived from bands of the returned drawing"),
- "C07": ("runtime monitoring: repeated execution in one process and across fresh processes, byte-wise comparison; deep-copy comparison of caller data", "identical canonical output over 6 (16) repetitions and across two fresh processes; inputs unmodified", "map-order nondeterminism is probabilistic: silence means not observed in r repetitions x 2 processes"),
+ "C07": ("runtime monitoring: repeated execution in one process and across fresh processes, byte-wise comparison; deep-copy comparison of caller data", "identical canonical output over 6 (16) repetitions and across two fresh processes (the second built with go1.26.8); the edge list and the very size map handed to the library equal their clones after every call", "map-order nondeterminism is probabilistic: silence means not observed in r repetitions x 2 processes"),
  "C08": ("runtime monitoring: metamorphic relation Layout(rename(G)) = rename(Layout(G)) over executions", "five adversarial injective renamings per case (helper alphabets V<n>/NE<n>, permutation, hostile strings) leave the layout unchanged byte for byte", "mismatches are charged only when both sides are self-consistent (otherwise C07)"),
  "C09": ("runtime monitoring: metamorphic relation union vs parts over executions", "every component of a union equals its stand-alone layout up to one horizontal translation; component extents disjoint and NodeSpacing apart (size-aware positioners)", "exact for dyadic inputs; spline control points compared with 1e-9 relative tolerance"),
  "C10": ("runtime monitoring: per-instance optimality certificate (LP duality, Dinic max-flow on tight edges) over executions, cross-checked against brute force for <= 7 nodes; iteration-cap hook H2", "total edge span is minimal and real nodes occupy contiguous layers on every judged run; capped runs are counted and excluded", "layer numbers derived from Y with uniform heights and helper nodes in the output; unit edge weights"),
@@ -28,8 +28,8 @@ T = {
  "C16": ("runtime monitoring: arithmetic identity oracle over executions", "band extent, neighbour gaps, leftmost x = 0, common midpoint (VAlign) / common right end (PackRight) hold exactly on every explored call", "connected inputs; exact for dyadic inputs, 1e-9 relative otherwise"),
  "C17": ("runtime monitoring: metamorphic relation under scaling by 2^k over executions", "scaling sizes and spacings by 2^k scales the canonical output bit for bit, k in -3..6", "network simplex positioner and splines are outside the property"),
  "C18": ("runtime monitoring: offline checker over recorded histories on a logical clock + quiescent-state invariant (hook H4)", "every monitor event lies inside a call that was given that monitor, also after panicking calls; layouts with and without monitor are identical; globals idle after every call", "events are attributed by logical interval, not by count"),
- "C19": ("runtime monitoring: reference-model oracle (visibility-graph Dijkstra + exact band containment) over executions of the real geom.Shortest", "returned path runs end->start, stays inside and has the length of the true shortest path on every generated well-formed corridor and on the corridors phase 5 builds", "relative tolerance 1e-9; well-formedness as stated in the property"),
- "C20": ("runtime monitoring: independent De Casteljau containment oracle over executions of the real FitSpline; root finder judged against roots constructed in 256-bit arithmetic", "pieces start/end at the path ends, join exactly, stay within 0.05 of the corridor; solve3 returns every robustly real root and nothing that is not a root", "one known finding (curve leaving through a polygon vertex / piece end point) is listed in KNOWN_FINDINGS.txt; double roots are not demanded"),
+ "C19": ("runtime monitoring: reference-model oracle (visibility-graph Dijkstra + exact band containment) over executions of the real geom.Shortest", "returned path runs end->start, stays inside and has the length of the true shortest path on every generated well-formed corridor (sizes 2^-30 .. 2^30 times the usual ones included) and on the corridors phase 5 builds", "relative tolerance 1e-9; well-formedness as stated in the property"),
+ "C20": ("runtime monitoring: independent De Casteljau containment oracle over executions of the real FitSpline; root finder judged against roots constructed in 256-bit arithmetic", "pieces start/end at the path ends, join exactly, stay within 0.05 of the corridor (sampled uniformly, at coordinate extrema and around every corner the piece approaches; corridors include long runs grazing a corner); solve3 returns every robustly real root and nothing that is not a root", "one known finding (curve leaving through a polygon vertex / piece end point) is listed in KNOWN_FINDINGS.txt; double roots are not demanded"),
 }
 
 claimed = sorted(T)
